@@ -441,6 +441,16 @@ class Report:
             self.samples.append(c)
 
     def fail(self, what, case, observed=None, expected=None, sig=None):
+        if what == "driver crashed" and isinstance(observed, str) and "importlib.import_module" in observed \
+                and "/verif/harness/drivers/" in observed.split("import_module")[-1] and "taskiq/" not in observed.split("import_module")[-1]:
+            # the driver process died while its own module was being imported, in harness code: no case ran at all.  That is
+            # the harness failing to set up its observation on this tree - not an input on which the implementation
+            # breaks the property; reported as an obligation that no longer checks (no-failing-input-found), once.
+            name = "harness:driver-start"
+            if not any(o["name"] == name for o in self.obligations):
+                self.obligations.append(dict(name=name, ok=False, axioms=[], detail="the driver could not be started on this "
+                                             "tree: " + " ".join(observed.split())[-400:]))
+            return
         self.failures.append(dict(what=what, case=case, observed=observed, expected=expected, sig=sig or {}))
 
     # ---- verdict
